@@ -17,4 +17,6 @@ pub broadcast proof fn vx_wmul64(a: u64, b: u64) ensures #[trigger] a.wrapping_m
 pub broadcast proof fn vx_wadd32(a: u32, b: u32) ensures #[trigger] a.wrapping_add(b) == add(a, b) { vx_bv_add32(a, b); }
 pub broadcast proof fn vx_wsub32(a: u32, b: u32) ensures #[trigger] a.wrapping_sub(b) == sub(a, b) { vx_bv_sub32(a, b); }
 pub broadcast proof fn vx_wmul32(a: u32, b: u32) ensures #[trigger] a.wrapping_mul(b) == mul(a, b) { vx_bv_mul32(a, b); }
-pub broadcast group vx_wrapping_bridge { vx_wadd64, vx_wsub64, vx_wmul64, vx_wadd32, vx_wsub32, vx_wmul32 }
+pub broadcast proof fn vx_ssub64(a: u64, b: u64) ensures #[trigger] a.saturating_sub(b) == (if a < b { 0u64 } else { sub(a, b) }) { vx_bv_sub64(a, b); }
+pub broadcast proof fn vx_ssub32(a: u32, b: u32) ensures #[trigger] a.saturating_sub(b) == (if a < b { 0u32 } else { sub(a, b) }) { vx_bv_sub32(a, b); }
+pub broadcast group vx_wrapping_bridge { vx_wadd64, vx_wsub64, vx_wmul64, vx_wadd32, vx_wsub32, vx_wmul32, vx_ssub64, vx_ssub32 }
